@@ -513,6 +513,17 @@ def run_histories(spec, acc):
                     dmg[rng.randrange(11, 18)] ^= rng.randrange(1, 256)
                 inputs.append(("bad", None, ("decode_usb", bytes(dmg), {})))
             inputs.append(("ev", ev, ev_input(ev, rng)))
+            if pool.singles and rng.random() < 0.12:
+                # a valid message with nothing in it: every field 'not available' (a sensor that has just been switched on). It is
+                # history like everything else: what comes later decodes as if it had not been there
+                d_na = rng.choice(pool.singles)
+                nb_na = d_na.length or 8
+                na_ = (1 << (8 * nb_na)) - 1
+                for f_ in d_na.match_fields:
+                    na_ = (na_ & ~(f_.mask << f_.off)) | (f_.match << f_.off)
+                if dbx.select(d_na.pgn, na_) is d_na and nb_na <= 8:
+                    inputs.append(("na", None, ("decode_tcp", wire.ebyte_frame(wire.can_id(2, d_na.pgn, rng.choice(sources), 255), na_.to_bytes(nb_na, "little")), {})))
+                    acc.count("messages_with_every_field_not_available_in_histories")
             if rng.random() < 0.25:
                 for b in bad_inputs(pool, rng, sources)[:rng.randint(1, 4)]:
                     inputs.append(("bad", None, b))
